@@ -27,9 +27,25 @@ LEVEL_TEXT = ("Proof by refinement: for every operation history (any length) on 
               "over n_cat and are returned identically. Round 4: the alphabet has all six catalog evaluations (one- and "
               "two-pass), streamed forecasts may be constructed with any n_cat, the once-filtered list is derived from "
               "the code-shaped sequence filter(statements) -> apply_mct -> filter_spatial on raw events, an aborted pass "
-              "is characterised for every cut. Tied to the code by exhaustive short histories over all "
-              "configurations and sampled long ones.")
-LEVEL_NOTE = ("an event is abstracted to (survives the filters, bin index); Catalog.filter / filter_spatial / "
+              "is characterised for every cut. Round 4 (owner): get_expected_rates is modelled WITH the exception of its loop "
+              "body (Model/ForecastIterX.lean): no once-filtered event outside the grid => it is the exception-free operation "
+              "(so the refinement theorem is about the code exactly there), otherwise it raises at the first offending catalog, "
+              "leaves the forecast as that many __next__ calls do, caches nothing, and raises again after the repairing loop "
+              "(all sources, any history). The forecast on ROWS (Model/ForecastConcrete.lean): what the harness used to supply per "
+              "event (survives-the-filters flag, bin) is computed by C04's model of filter / apply_mct / filter_spatial and an exact "
+              "space-magnitude binning; concrete_refines_spec: every history on every source built from rows shows every catalog "
+              "filtered exactly once by the code's own filter stage, for every subset of the three stages. Round 5: reads of the "
+              "expected-rates object in all argument forms (data, spatial_counts() 1-d, spatial_counts(cartesian=True) 2-d map, "
+              "magnitude_counts(), total) are operations of the model (Model/ForecastReads.lean): in any history mixing them with "
+              "the eleven operations each read is the corresponding view of the per-bin totals over n_cat, two reads of one kind "
+              "agree wherever they stand, the 2-d map shows the 1-d vector's entries. Tied to the code by "
+              "exhaustive short histories over all configurations and sampled long ones.")
+LEVEL_NOTE = ("an event is abstracted to (survives the filters, bin index); in the c13_runc histories this abstraction is computed by "
+              "the Lean model from the rows (statement semantics, completeness cut with the harness-supplied transcendental "
+              "decision for rows inside the window, exact half-open cell test, last magnitude edge not above the magnitude; catalogs "
+              "sorted in time as apply_mct assumes), elsewhere it is supplied by the harness. After an exception inside a pass the "
+              "model follows the code (known finding D27) up to the point where the code caches rates built from an uninitialised "
+              "scalar (no catalog left to iterate): such a history ends there. Catalog.filter / filter_spatial / "
               "spatial_magnitude_counts themselves belong to C04/C01/C03; the file decoder to C12; the statistics of the "
               "catalog tests to C10 (here only their use of the forecast and the stability of their results).")
 DESIGN_REF = "DESIGN.md §4 C13"
@@ -49,12 +65,26 @@ THEOREMS = ["ForecastIter.refines_spec", "ForecastIter.refines_spec_list", "Fore
             "ForecastIter.list_wrong_ncat_always_fails",
             # phase 2
             "ForecastIter.shared_session_refines_spec", "ForecastIter.step_list_fields",
-            "ForecastIter.inv_catalogs_replaced"]
+            "ForecastIter.inv_catalogs_replaced",
+            # round 4 (owner): the exception inside get_expected_rates (C13_Rates.lean), the forecast on rows (C13_Concrete.lean)
+            "ForecastIter.passLoop_acc", "ForecastIter.ratesLoop_of_pass", "ForecastIter.accFold_eq_accumulate",
+            "ForecastIter.firstBad_none_iff", "ForecastIter.firstBad_some", "ForecastIter.ratesX_eq_rates",
+            "ForecastIter.ratesX_raised_at", "ForecastIter.ratesX_raises_iff", "ForecastIter.ratesX_raises_again",
+            "ForecastIter.filters_make_countable",
+            "ForecastConcrete.yieldOf_events", "ForecastConcrete.abs_yieldOf", "ForecastConcrete.yieldedOnce_eq_filtered",
+            "ForecastConcrete.concrete_refines_spec", "ForecastConcrete.cell_lt_iff", "ForecastConcrete.countable_abs_iff",
+            "ForecastConcrete.spatial_on_rejects_only_small_magnitudes", "ForecastConcrete.concrete_rates_raise_iff",
+            # round 5 (owner): reads of the expected rates in every argument form (C13_Reads.lean)
+            "ForecastIter.stepR_spec", "ForecastIter.reads_refine_spec", "ForecastIter.read_stable",
+            "ForecastIter.cartesian_consistent", "ForecastIter.reads_refine_spec_sources"]
 TRUSTED = ["Lean 4.33 kernel", "axioms: propext, Classical.choice, Quot.sound at most",
            "Catalog.filter(statements) / filter_spatial(region) keep exactly the satisfying events, in place, and are "
            "idempotent (C04); spatial_magnitude_counts counts every event once in its bin (C03); load_ascii_catalogs "
            "yields the catalogs of the file in order (C12) — each re-checked here by the direct oracle on every pass",
-           "harness/c13.py generators, file writer and comparison; driver parsing (Proto.lean)"]
+           "c13_runc: region lookup as the exact half-open cell test and magnitude binning as 'last edge not above' (C01/C02/C03 own the "
+           "floating-point lookups; generated coordinates and magnitudes keep away from edges); the completeness decision "
+           "`mw < mct(t)` of rows inside the window is computed by the harness (transcendental)",
+           "harness/c13.py, harness/c13_rates.py generators, file writer and comparison; driver parsing (Proto.lean, Drive/C04.lean)"]
 RULE = ("forecasts of 1..6 catalogs (0..4 events each, empty catalogs written as placeholder lines or omitted) on a 2x2 or "
         "3x2 cell x 2 magnitude-bin region; configurations {in-memory list with n_cat, without n_cat, file loader store "
         "on, store off} x {apply_filters on/off} x {filter_spatial on/off}; histories: every sequence of length 4 (all "
@@ -79,6 +109,19 @@ RULE = ("forecasts of 1..6 catalogs (0..4 events each, empty catalogs written as
         "observation, file or the very catalog objects with interleaved operations (model: runShared); catalogs handed "
         "out by earlier passes re-inspected at the end of the history; NaN depths, an event at epoch 0; catalogs with "
         "more than 2^16 events and bins holding more than 65535 events. "
+        "Round 4 (owner, harness/c13_rates.py): histories of 2-6 operations over {pass, event counts, expected rates, spatial / "
+        "magnitude counts} on 7 sources where 1-3 events lie in no bin of the forecast's grid (outside the region, or magnitude "
+        "3.5 below the first edge) and survive or not depending on apply_filters / filter_spatial / the magnitude statement "
+        "(c13_runx: a request for the rates must raise exactly when a once-filtered catalog holds such an event, must never "
+        "return rates of a part of the events; what follows the exception is compared exactly with the model and reported under "
+        "the signature of D27); the same on ROWS with every combination of statement / apply_mct / spatial filter and user n_cat "
+        "(c13_runc: the model gets rows, statements, the mainshock quantities, the cells and magnitude edges). "
+        "Round 5 (c13_runr): histories of 3-8 steps mixing READS of the expected rates — .data, spatial_counts() / "
+        "(cartesian=False) / positional, spatial_counts(cartesian=True) / (True), magnitude_counts(), .sum() / .event_count, each "
+        "through the forecast's method or through the object returned by get_expected_rates() — with spatial / pseudolikelihood "
+        "/ magnitude / number tests, passes and event counts on 7 sources; both representations of the spatial rates occur in "
+        "every history; every returned value (shape, NaN positions, each entry) is compared with the view of the per-bin means "
+        "and with the model. "
         "A history is non-trivial when it has >= 2 operations; distinct by (configuration, variant, catalogs, ops)")
 
 # sub-classes on which the UNCHANGED library does not behave as one would wish and for which a decision is pending:
@@ -96,6 +139,11 @@ OPS = ["P", "E", "R", "S", "M"]
 TESTS = ["N", "TS", "TM"]
 TESTS4 = ["TP", "TR", "TL", "TLF"]      # round 4 (TLF, phase 2: full_calculation=True): pseudolikelihood (rates + 1 pass), resampled / MLL magnitude test (rates + 2 passes)
 ALL_TESTS = TESTS + TESTS4
+# round 5: READS of the expected-rates object in all their argument forms (model: Model/ForecastReads.lean, op c13_runr):
+#   RD .data, RS spatial_counts() [1-d per cell], RC spatial_counts(cartesian=True) [2-d bounding-box map, NaN where no cell],
+#   RM magnitude_counts(), RT .sum() / .event_count; each through the forecast's own method or through the object returned by
+#   get_expected_rates(), keyword or positional (the call form of read k of a history is case["read_forms"][k])
+READS = ["RD", "RS", "RC", "RM", "RT"]
 TEST_SEED = 20240607
 # apply_mct: mainshock M8.4 ten days after the first generated event time; an event's time class is
 #   0 = before the mainshock (kept), 1 = one hour after it (completeness magnitude 4.89..4.94: only the 5.5 events stay),
@@ -281,10 +329,17 @@ def make_catalogs(case, origins, bound_region, filters):
 def write_u3(path, case, origins):
     """a UCERF3-ETAS stochastic event set (merged binary format, file version 1..3, plain or gzip-compressed)"""
     import gzip
-    from csep.core.catalogs import UCERF3Catalog
     version = int(case.get("u3_version", 1))
-    evd = UCERF3Catalog._get_catalog_dtype(version)
-    hd = UCERF3Catalog._get_header_dtype(version)
+    # the UCERF3-ETAS binary layout is an external file format: written from its specification here, NOT through private helpers
+    # of the class under test (UCERF3Catalog._get_catalog_dtype / _get_header_dtype may be renamed at will)
+    ev_fields = [("rupture_id", ">i4"), ("parent_id", ">i4"), ("generation", ">i2"), ("origin_time", ">i8"), ("latitude", ">f8"),
+                 ("longitude", ">f8"), ("depth", ">f8"), ("magnitude", ">f8"), ("dist_to_parent", ">f8"), ("erf_index", ">i4"),
+                 ("fss_index", ">i4"), ("grid_node_index", ">i4")] + ([("etas_k", ">f8")] if version >= 2 else [])
+    hd_fields = [("catalog_size", ">i4")] if version <= 2 else [
+        ("num_orignal_ruptures", ">i4"), ("seed", ">i8"), ("index", ">i4"), ("hist_rupt_start_id", ">i4"), ("hist_rupt_end_id", ">i4"),
+        ("trig_rupt_start_id", ">i4"), ("trig_rupt_end_id", ">i4"), ("sim_start_epoch", ">i8"), ("sim_end_epoch", ">i8"),
+        ("num_spont", ">i4"), ("num_supraseis", ">i4"), ("min_mag", ">f8"), ("max_mag", ">f8"), ("catalog_size", ">i4")]
+    evd, hd = numpy.dtype(ev_fields), numpy.dtype(hd_fields)
     opener = gzip.open if path.endswith(".gz") else open
     with opener(path, "wb") as f:
         f.write(numpy.array([len(case["cats"])], dtype=">i4").tobytes())
@@ -441,6 +496,15 @@ class Hist:
     def fail(self, msg):
         self.fails.append(self.label + msg)
 
+    def layout(self):
+        """([cell index or None for every position of the flattened bounding-box map], shape of the map): the region's own
+        geometry (C01's subject), taken from region.get_cartesian on the cell numbers"""
+        if getattr(self, "_layout", None) is None:
+            ncell = len(self.tot) // len(MAGS)
+            m = numpy.asarray(self.region.get_cartesian(numpy.arange(ncell, dtype=float)), dtype=float)
+            self._layout = ([None if numpy.isnan(v) else int(v) for v in m.ravel()], tuple(m.shape))
+        return self._layout
+
     def ncat_tok(self):
         try:
             v = self.fore.n_cat
@@ -455,8 +519,9 @@ class Hist:
         for j, v in enumerate(arr):
             kk = int(round(float(v) * n)) if numpy.isfinite(v) else -1
             ks.append(kk)
-            if float(v) != kk / n:
-                self.fail(f"op {k}: expected rate {float(v)!r} in bin {j} is not an exact mean k/{n}")
+            # "equal the per-cell mean": to rounding (a mean accumulated in another order may differ in the last bits)
+            if not abs(float(v) - kk / n) <= 1e-12 * max(1.0, kk / n):
+                self.fail(f"op {k}: expected rate {float(v)!r} in bin {j} is not a mean k/{n}")
         if ks != tot:
             self.fail(f"op {k}: expected-rate totals {ks} differ from the per-bin totals of the filtered catalogs {tot}")
         return ks
@@ -558,6 +623,47 @@ class Hist:
                 exp = [sum(tot[m::nm]) for m in range(nm)]
                 ks = self.check_marginal(mc, exp, k, "magnitude_counts")
                 outs.append("r" + ",".join(map(str, ks)) + f"/{self.ncat_tok()}")
+            elif op in READS:
+                form = int((case.get("read_forms") or {}).get(str(k), 0))
+                sp_exp = [sum(tot[s * nm:(s + 1) * nm]) for s in range(nb // nm)]
+                lay = self.layout()
+                if op == "RD":
+                    val = [lambda: fore.get_expected_rates().data, lambda: (fore.get_expected_rates(), fore.expected_rates.data)[1]][form % 2]()
+                    exp, shape = list(tot), (nb // nm, nm)
+                elif op == "RS":
+                    val = [lambda: fore.spatial_counts(), lambda: fore.spatial_counts(cartesian=False),
+                           lambda: fore.get_expected_rates().spatial_counts(), lambda: fore.get_expected_rates().spatial_counts(False)][form % 4]()
+                    exp, shape = sp_exp, (nb // nm,)
+                elif op == "RC":
+                    val = [lambda: fore.spatial_counts(cartesian=True), lambda: fore.spatial_counts(True),
+                           lambda: fore.get_expected_rates().spatial_counts(cartesian=True)][form % 3]()
+                    exp, shape = [None if c is None else sp_exp[c] for c in lay[0]], lay[1]
+                elif op == "RM":
+                    val = [lambda: fore.magnitude_counts(), lambda: fore.get_expected_rates().magnitude_counts()][form % 2]()
+                    exp, shape = [sum(tot[m::nm]) for m in range(nm)], (nm,)
+                else:
+                    val = [lambda: fore.get_expected_rates().sum(), lambda: fore.get_expected_rates().event_count][form % 2]()
+                    exp, shape = [sum(tot)], ()
+                arr = numpy.asarray(val, dtype=float)
+                if tuple(arr.shape) != tuple(shape):
+                    self.fail(f"op {k} ({op}, call form {form}): the value has shape {tuple(arr.shape)}, this read of the expected "
+                              f"rates has shape {tuple(shape)}")
+                flat = arr.ravel()
+                toks = []
+                for j, v in enumerate(flat):
+                    e = exp[j] if j < len(exp) else None
+                    if numpy.isnan(v):
+                        toks.append("x")
+                        if e is not None and len(flat) == len(exp):
+                            self.fail(f"op {k} ({op}): NaN at position {j}, expected {e}/{n}")
+                    else:
+                        kk = int(round(float(v) * n)) if numpy.isfinite(v) else -1
+                        toks.append(str(kk))
+                        if len(flat) == len(exp) and (e is None or not abs(float(v) - e / n) <= 1e-12 * max(1.0, e / n)):
+                            self.fail(f"op {k} ({op}, call form {form}): value {float(v)!r} at position {j}, the "
+                                      f"{'map has no cell there' if e is None else f'per-bin mean is {e}/{n}'}")
+                run.count(f"read:{op}:form{form % 4}")
+                outs.append("v" + (",".join(toks) if toks else "-") + f"/{self.ncat_tok()}")
             else:
                 raise ValueError(f"unknown operation {op}")
             if op != "P" and op != "E" and op != "N" and self.first_rates is None and fore.expected_rates is not None:
@@ -710,6 +816,10 @@ def model_line4(case):
 
 
 def model_line(case):
+    if case.get("reads"):
+        parts = model_line(dict(case, reads=False)).split(" ")
+        assert parts[0] == "c13_run" and len(parts) == 8
+        return " ".join(["c13_runr"] + parts[1:7] + [case["layout"]] + parts[7:])
     if case.get("round4"):
         return model_line4(case)
     if is_variant(case):
@@ -739,6 +849,10 @@ def model_line(case):
 
 
 def do_history(run, drv, pending, case, tmpdir):
+    if case.get("reads") and "layout" not in case:
+        region, _ = make_region(case["nx"], case["ny"])
+        m = numpy.asarray(region.get_cartesian(numpy.arange(case["nx"] * case["ny"], dtype=float)), dtype=float).ravel()
+        case["layout"] = ",".join("x" if numpy.isnan(v) else str(int(v)) for v in m)
     outs, fails = run_history(run, case, tmpdir)
     nontriv = (case["source"], case["apply_filters"], case["mag_filter"], case["filter_spatial"],
                json.dumps([case.get("idlist"), case.get("cat_region"), case.get("cat_filters"), case.get("sameobj")]),
@@ -779,6 +893,14 @@ def flush(run, drv, pending):
                     run.mismatch(case, impl, model)
             elif impl != model[:len(impl)] or (len(impl) < len(model) and not (impl and impl[-1].startswith("e"))):
                 run.mismatch(case, impl, model)
+            continue
+        if len(item) == 4 and item[3] == "abort-exc":
+            st = run.extra.setdefault("aborted_by_exception_model_agreement", dict(agree=0, differ=0))
+            st["agree" if out[i] == outs[0] else "differ"] += 1
+            continue
+        if len(item) == 4 and item[3] == "ratesx":
+            from . import c13_rates
+            c13_rates.compare(run, case, outs, out[i])
             continue
         if len(item) == 4 and item[3] == "wrong-ncat":
             if out[i] != outs[0]:
@@ -917,8 +1039,10 @@ def do_big(run, drv, pending, case, tmpdir):
                 er = fore.get_expected_rates()
                 arr = numpy.asarray(er.data, dtype=float).ravel()
                 want = [t / nc for t in tot]
-                if len(arr) != nbins or any(float(v) != w for v, w in zip(arr, want)):
-                    bad = next((j for j in range(min(len(arr), nbins)) if float(arr[j]) != want[j]), None)
+                def off(v, w):      # "equal the per-cell mean": to rounding; a 16-bit / 32-bit counter overflow is off by far more
+                    return not abs(float(v) - w) <= 1e-12 * max(1.0, w)
+                if len(arr) != nbins or any(off(v, w) for v, w in zip(arr, want)):
+                    bad = next((j for j in range(min(len(arr), nbins)) if off(arr[j], want[j])), None)
                     fails.append(f"op {k}: expected rate in bin {bad} is {float(arr[bad]) if bad is not None else arr.shape}, "
                                  f"the per-bin mean of the catalogs is {want[bad] if bad is not None else nbins}")
                 if op == "S":
@@ -942,45 +1066,47 @@ def do_big(run, drv, pending, case, tmpdir):
 
 # ----------------------------------------------------------------------------- wrong n_cat for an in-memory list
 def do_wrong_ncat(run, drv, pending, case, tmpdir):
-    """an in-memory list constructed with an n_cat that is not its length (outside the property's hypotheses). The code
-    as it stands fails the assert of __next__ in every operation (theorem list_wrong_ncat_always_fails, compared with
-    the model); a tolerant rewrite that corrects the number must then satisfy the whole specification. Anything in
-    between (some operations work, others do not; other exceptions) is reported."""
-    fore, table, region, origins = build_forecast(case, tmpdir)
+    """an in-memory list constructed with an n_cat that is not its length: a MISCONFIGURED forecast, outside the property's
+    hypotheses. Demanded — for every operation kind of the case, each as the FIRST operation on a FRESH object — is only that
+    the forecast either rejects the configuration (any exception) or handles it, in which case what it returns must be the
+    specification's (never catalogs / counts / rates of a part of the list handed out as if complete; checked by do_history).
+    What an object does AFTER it has rejected its configuration with an exception is unconstrained (the property promises
+    nothing there, as after the aborted pass of D27): such operations are neither executed nor compared with the model.
+    The code as it stands fails the assert of __next__ in every operation (theorem list_wrong_ncat_always_fails).
+    (A streamed forecast with a wrong n_cat is a different class: the code corrects the number; checked strictly elsewhere.)"""
     m = case["ncat_wrong"]
-    outs = []
-    for op in case["ops"]:
+    first_ops = list(dict.fromkeys(case["ops"]))
+    rejected, handled = [], []
+    for op in first_ops:
+        fore, table, region, origins = build_forecast(case, tmpdir)
         try:
-            if op == "P":
-                [c for c in fore]
-            elif op == "E":
-                fore.get_event_counts(verbose=False)
-            elif op == "R":
-                fore.get_expected_rates()
-            elif op == "S":
-                fore.spatial_counts()
-            elif op == "M":
-                fore.magnitude_counts()
-            outs.append("ok")
-        except AssertionError:
-            outs.append("e")
-        except Exception as e:
-            outs.append(type(e).__name__)
-        outs[-1] += f"@{fore.n_cat if fore.n_cat is not None else 'none'}"
-    if all(o.startswith("ok") for o in outs):
-        run.count("list-wrong-ncat: tolerated by the implementation (checked against the specification)")
-        do_history(run, drv, pending, dict(case, kind="history"), tmpdir)
-        return
-    run.case(case, ("wrong-ncat", m, json.dumps(case["cats"]), tuple(case["ops"])))
-    run.count("list-wrong-ncat: AssertionError in every operation")
-    if not all(o == f"e@{m}" for o in outs):
-        run.oracle_failure(case, f"an in-memory list of {len(case['cats'])} catalogs constructed with n_cat={m}: the "
-                                 f"operations {case['ops']} give {outs}: neither rejected throughout nor handled throughout")
-    nb = case["nx"] * case["ny"] * len(MAGS)
-    cats = ";".join((",".join(f"{1 if keep_of(case, ev) else 0}:{bin_of(case, ev)}" for ev in evs) if evs else "-")
-                    for evs in case["cats"])
-    i = drv.ask(f"c13_run list {m} {1 if case['apply_filters'] else 0} {nb} {len(MAGS)} {cats} {','.join(case['ops'])}")
-    pending.append((case, i, ["|".join(outs)], "wrong-ncat"))
+            with contextlib.redirect_stdout(io.StringIO()):
+                if op == "P":
+                    [c for c in fore]
+                elif op == "E":
+                    fore.get_event_counts(verbose=False)
+                elif op == "R":
+                    fore.get_expected_rates()
+                elif op == "S":
+                    fore.spatial_counts()
+                elif op == "M":
+                    fore.magnitude_counts()
+            handled.append(op)
+        except Exception:
+            rejected.append(op)
+    run.case(case, ("wrong-ncat", m, json.dumps(case["cats"]), tuple(first_ops)))
+    for op in handled:
+        # the configuration was accepted by this operation on a fresh object: its answer must be the specification's
+        run.count("list-wrong-ncat: handled by the implementation as first operation (checked against the specification)")
+        do_history(run, drv, pending, dict(case, kind="history", ops=[op]), tmpdir)
+    if rejected:
+        run.count("list-wrong-ncat: rejected by the first operation on a fresh object")
+        nb = case["nx"] * case["ny"] * len(MAGS)
+        cats = ";".join((",".join(f"{1 if keep_of(case, ev) else 0}:{bin_of(case, ev)}" for ev in evs) if evs else "-")
+                        for evs in case["cats"])
+        # the model (every operation fails the assert and changes nothing, so a sequence equals fresh objects)
+        i = drv.ask(f"c13_run list {m} {1 if case['apply_filters'] else 0} {nb} {len(MAGS)} {cats} {','.join(rejected)}")
+        pending.append((case, i, ["|".join(f"e@{m}" for _ in rejected)], "wrong-ncat"))
 
 
 # ----------------------------------------------------------------------------- aborted pass (finding)
@@ -1008,11 +1134,24 @@ def do_aborted(run, drv, pending, case, tmpdir):
         run.count(f"aborted-{case['source']}")
         raised = None
         try:
-            fore.get_expected_rates()
+            er = fore.get_expected_rates()
         except Exception as e:
             raised = type(e).__name__
         if raised is None:
-            run.oracle_failure(case, "get_expected_rates accepted an event outside the region")
+            # no exception: acceptable iff the rates are the per-bin means of the events that DO lie in a bin (an event outside
+            # every cell is in no cell's count; whether it must be rejected is C03's business) — never rates of a part of the catalogs
+            nb = case["nx"] * case["ny"] * len(MAGS)
+            tot = [0] * nb
+            for evs in case["cats"]:
+                for ev in evs:
+                    if ev[0] >= 0:
+                        tot[bin_of(case, ev)] += 1
+            arr = numpy.asarray(er.data, dtype=float).ravel()
+            if len(arr) != nb or any(abs(float(v) - t / n) > 1e-12 for v, t in zip(arr, tot)):
+                run.oracle_failure(case, f"get_expected_rates accepted an event outside the region and returned "
+                                         f"{list(map(float, arr))}, not the per-bin means {tot}/{n} of the events inside")
+            else:
+                run.count("aborted: implementation skips events outside the grid instead of raising")
             return
     cats = [c for c in fore]
     ids = [int(c.catalog_id) for c in cats]
@@ -1025,9 +1164,17 @@ def do_aborted(run, drv, pending, case, tmpdir):
                                  f" the next complete for-loop "
                                  f"yields catalogs {ids}, not 0..{n - 1}: the aborted pass is not restarted",
                            signature=ABORT_SIG)
+    if ids == list(range(n)) and evs == [[eid for eid, _ in cat] for cat in reference(case)]:
+        # the loop after the abandoned one yields every once-filtered catalog: the property is met (the present code does not
+        # do that: known finding D27; the model follows the present code and is therefore not asked)
+        run.count("aborted: the next for-loop is a complete pass (property met, D27 not present)")
+        return
     line = model_line(dict(case, ops=[])).rsplit(" ", 1)[0].replace("c13_run", "c13_abort") + f" {k0 + 1}"
     i = drv.ask(line)
-    pending.append((dict(case, ops=["P"]), i, [impl], "abort"))
+    # left by `break`: no exception was raised, the model (D27 characterised for every cut) is compared strictly.
+    # left by an exception of the forecast's own get_expected_rates: the property promises nothing about the object afterwards;
+    # the agreement with the model is only counted (run.extra["aborted_by_exception_model_agreement"])
+    pending.append((dict(case, ops=["P"]), i, [impl], "abort" if case.get("break_after") else "abort-exc"))
 
 
 def gen_aborted(rng):
@@ -1195,6 +1342,9 @@ def gen_ops(rng, w, lo, hi, p_test=0.25):
 
 
 def dispatch(case):
+    if case.get("kind") == "ratesx":
+        from . import c13_rates
+        return c13_rates.do_ratesx
     return {"aborted": do_aborted, "wrong-ncat": do_wrong_ncat, "session": do_session, "big": do_big}.get(
         case.get("kind"), do_history)
 
@@ -1348,6 +1498,20 @@ def run(run, rng, tier):
         # deliberate: a pass aborted by an exception (finding, see notes/C13.md)
         for _ in range(16 if quick else 120):
             do_aborted(run, drv, pending, gen_aborted(rng), tmpdir)
+        flush(run, drv, pending)
+        # round 5 (owner): reads of the expected rates in all argument forms, interleaved with the evaluations (c13_runr)
+        from . import c13_rates
+        for _ in range(260 if quick else 6000):
+            do_history(run, drv, pending, c13_rates.gen_reads(rng), tmpdir)
+        flush(run, drv, pending)
+        # round 4 (owner): get_expected_rates with the exception of its loop body inside the model (c13_runx)
+        from . import c13_rates
+        for _ in range(150 if quick else 4000):
+            c13_rates.do_ratesx(run, drv, pending, c13_rates.gen_ratesx(rng), tmpdir)
+        flush(run, drv, pending)
+        # ... and the forecast on ROWS: the model computes every filter decision and every bin itself (c13_runc)
+        for _ in range(220 if quick else 5000):
+            c13_rates.do_ratesx(run, drv, pending, c13_rates.gen_concrete(rng), tmpdir)
         flush(run, drv, pending)
         # sampled long histories
         for _ in range(400 if quick else 5000):
